@@ -152,13 +152,22 @@ def parse_nc(text):
     finally:
         guard._LOGGER.setLevel(10)
     _SILENT['diff'] = None if p2 == p else (p, p2)
+    if _SILENT['diff'] is None:
+        # ... and with comment parsing switched off: the comment-free projection is the same
+        p3 = P.proj(cssutils.CSSParser(parseComments=False).parseString(text), comments=False)
+        if p3 != p:
+            _SILENT['diff'] = (p, p3, 'parseComments=False')
     return p, len(log.records)
 
 
 def log_dependence(res, clause, case, kind):
     if _SILENT['diff'] is not None:
-        a, b = _SILENT['diff']
+        a, b = _SILENT['diff'][:2]
         d = P.diff_path(a, b)
+        if len(_SILENT['diff']) == 3:
+            res.violation(clause, f'result-depends-on-comment-parsing|{kind}', dict(case, parseComments=[True, False]),
+                          {'at': list(d[0]), 'parseComments=True (comments ignored)': d[1]}, {'parseComments=False': d[2]}, size=len(case.get('text', '')))
+            return
         res.violation(clause, f'result-depends-on-the-log-level|{kind}', dict(case, log_levels=['DEBUG', 'silenced']),
                       {'at': list(d[0]), 'log at DEBUG': d[1]}, {'log silenced': d[2]}, size=len(case.get('text', '')))
 
